@@ -3,29 +3,31 @@
 import json, os
 HERE = os.path.dirname(os.path.dirname(os.path.abspath(__file__)))
 
-E1 = 'bounded exhaustive enumeration of input structures on the real library, lock-step dense reference model; second tier: explicit-state search over call histories whose last event belongs to the property'
+E1 = 'bounded exhaustive enumeration of input structures on the real library, lock-step dense reference model'
+E1H = E1 + '; second tier: explicit-state search over call histories whose last event belongs to the property'
 E2 = 'explicit-state breadth-first search over call histories on the real library, monitors in every state'
-E3 = 'exhaustive exploration of every rank-decision sequence over the eps continuum (decision-point walk) x structure enumeration; second tier: explicit-state search over call histories'
+E3 = 'exhaustive exploration of every rank-decision sequence over the eps continuum (decision-point walk) x structure enumeration'
+E3H = E3 + '; second tier: explicit-state search over call histories whose last event belongs to the property'
 
 CHECKS = {
  # id: (technique, level text, level note, design ref)
- 'C03': (E1, 'All operand-pair structures (orders 1..4 quick / 1..5 thorough, singleton modes, rank profiles, every broadcast alignment, scalar kinds, dtypes) x all arithmetic operations are executed and compared bit-for-bit (small-integer cores) or to roundoff (generic cores) with dense arithmetic; rank law and dtype checked.',
+ 'C03': (E1H, 'All operand-pair structures (orders 1..4 quick / 1..5 thorough, singleton modes, rank profiles, every broadcast alignment, scalar kinds, dtypes) x all arithmetic operations are executed and compared bit-for-bit (small-integer cores) or to roundoff (generic cores) with dense arithmetic; rank law and dtype checked.',
          'values are fixed generic/integer families, not enumerated (identities are polynomial in the cores); torch dense kernels trusted', '§5 C03'),
 }
 CHECKS.update({
- 'C04': (E1, 'All rectangular operator/vector/operator structures (orders 1..3 quick / 1..4 thorough; row, column and inner sizes distinct per position; every singleton substitution; rank profiles; dense operands with 0..3 batch dims) x all operator operations compared bit-for-bit / to roundoff with the dense operator expression; product rank law and dtype checked.',
+ 'C04': (E1H, 'All rectangular operator/vector/operator structures (orders 1..3 quick / 1..4 thorough; row, column and inner sizes distinct per position; every singleton substitution; rank profiles; dense operands with 0..3 batch dims) x all operator operations compared bit-for-bit / to roundoff with the dense operator expression; product rank law and dtype checked.',
          'values not enumerated (polynomial identities); torch dense kernels trusted', '§5 C04'),
- 'C07': (E1, 'norm (plain/squared x autograd off/leaf/non-leaf), dot (full and over EVERY axis subset), sum (all and EVERY axis subset, int and list form), bilinear_form on all structures of order 1..4 (5 thorough) tensors and 1..3 operators, real/complex/zero, compared with dense reductions incl. result shape.',
+ 'C07': (E1H, 'norm (plain/squared x autograd off/leaf/non-leaf), dot (full and over EVERY axis subset), sum (all and EVERY axis subset, int and list form), bilinear_form on all structures of order 1..4 (5 thorough) tensors and 1..3 operators, real/complex/zero, compared with dense reductions incl. result shape.',
          'values not enumerated; scalar results accepted as 0-d/1-element tensors or numbers', '§5 C07'),
- 'C08': (E1, 'ALL full-length index tuples over the per-mode alphabet {0,-1,mid,:,1:,0:1,::2,:-1} with 0..2 None insertions at every position and leading/trailing Ellipsis, on every structure of order 1..3 (4 thorough), plus operator (int,int)/(slice,slice) pairs and apply_mask with every 1-/2-row index matrix: shape (every axis) and bits equal dense[index].',
+ 'C08': (E1H, 'ALL full-length index tuples over the per-mode alphabet {0,-1,mid,:,1:,0:1,::2,:-1} with 0..2 None insertions at every position and leading/trailing Ellipsis, on every structure of order 1..3 (4 thorough), plus operator (int,int)/(slice,slice) pairs and apply_mask with every 1-/2-row index matrix: shape (every axis) and bits equal dense[index].',
          'partial index tuples (shorter than the order, no Ellipsis) not enumerated; int64 index matrices', '§5 C08'),
 })
 CHECKS.update({
- 'C09': (E1, 'cat (every axis, 2..3 operands with distinct sizes), pad (every trailing subset of modes, widths {0,1,2}^2, fill 0 and non-zero, tensors and operators with the block oracle of the statement), diag (both directions, rectangular too), mprod (every mode and every subset/order of modes), to_ttm, conj, clone on all structures of order 1..3 (4 thorough), bit-equal to the dense operation.',
+ 'C09': (E1H, 'cat (every axis, 2..3 operands with distinct sizes), pad (every trailing subset of modes, widths {0,1,2}^2, fill 0 and non-zero, tensors and operators with the block oracle of the statement), diag (both directions, rectangular too), mprod (every mode and every subset/order of modes), to_ttm, conj, clone on all structures of order 1..3 (4 thorough), bit-equal to the dense operation.',
          'operator pad: padded diagonal entries outside the two corner blocks are unconstrained by the statement and not compared', '§5 C09'),
  'C18': (E1, 'Every public entry point x every incompatibility class (mismatch at each position incl. against size-1 modes, order/kind/type mismatch, out-of-range index/axis/mode/dim, element-count mismatch, bad rank lists, mis-shaped cores) on orders 1..3: must raise (validity decided by the dense model), documented cases must raise a library exception type, operands unchanged.',
          'documented-case table transcribed from docstrings; dense-valid but undocumented arguments only need to raise or agree', '§5 C18'),
- 'C19': (E1, 'save->load, clone, detach, to(dtype), cpu, numpy on all structures order 1..4 (6 thorough) x dtype x provenance (leaf, TT-SVD, truncated TT-SVD, slice view, t(), conj(), detached, rounded, summed): bit-identical cores and metadata, disjoint storage for clone, source untouched.',
+ 'C19': (E1H, 'save->load, clone, detach, to(dtype), cpu, numpy on all structures order 1..4 (6 thorough) x dtype x provenance (leaf, TT-SVD, truncated TT-SVD, slice view, t(), conj(), detached, rounded, summed): bit-identical cores and metadata, disjoint storage for clone, source untouched.',
          'CPU only', '§5 C19'),
  'C20': (E1, 'All size_in/size_out lists of 1..3 (4 thorough) modes with every singleton substitution, all rank profiles over {1,2,3}, batch ranks 0..3, float32/float64, He/Glo: forward value, parameter registration and all parameter gradients equal those of the dense affine map contracted from the layer\'s own cores.',
          'bias overwritten with a non-zero tensor; torch RNG seeded', '§5 C20'),
@@ -33,9 +35,9 @@ CHECKS.update({
 CHECKS.update({
  'C01': (E3, 'For every enumerated dense input (orders 1..4 quick / 1..6 thorough, all {1,2,3}^d shapes for d<=3, operator shapes, torch/numpy sources, shape-argument forms, f64/c128/f32, spectra: exact low rank, full, decaying, flat (ties), saturating, zero) the explorer visits EVERY rank-decision sequence that any eps in (0,1) can produce, and the +-2 ulp neighbourhood of every breakpoint, for rmax in {inf,1,2,per-bond list}; shape, error <= eps|A|, rank <= rmax, rank <= exact unfolding rank are checked on every run.',
          'rank_chop observed through a wrapper installed from outside; breakpoints computed from all tail-energy levels of all logged calls; checker SVD for exact ranks', '§4.1, §5 C01'),
- 'C02': (E3, 'Same decision walk (plus eps=0) on x.round(eps,rmax) for raw random / badly scaled / rank-deficient / over-parameterised / zero / inflated (x+x-x) / TT-SVD-provenance inputs, tensors and operators, orders 1..4 (7 thorough): shape, error bound, R_out<=R_in, <=rmax, <=exact unfolding rank, operand snapshot (values, ranks, version counters) unchanged after every run.',
+ 'C02': (E3H, 'Same decision walk (plus eps=0) on x.round(eps,rmax) for raw random / badly scaled / rank-deficient / over-parameterised / zero / inflated (x+x-x) / TT-SVD-provenance inputs, tensors and operators, orders 1..4 (7 thorough): shape, error bound, R_out<=R_in, <=rmax, <=exact unfolding rank, operand snapshot (values, ranks, version counters) unchanged after every run.',
          'as C01', '§4.1, §5 C02'),
- 'C10': (E3, 'reshape: ALL ordered pairs of ordered factorisations (with inserted singleton modes) of the element counts {4,6,8,12} (to 36 thorough), tensors and operators; permute: ALL permutations up to order 4 (6 thorough), tensors and operators; to_qtt/qtt_to_tens: all shapes over {1,2,4,8}(16) and mode_size 3 powers; exact mode sizes and value within C*eps incl. complex phase; loose eps by the complete decision walk on [1e-8,0.3).',
+ 'C10': (E3H, 'reshape: ALL ordered pairs of ordered factorisations (with inserted singleton modes) of the element counts {4,6,8,12} (to 36 thorough), tensors and operators; permute: ALL permutations up to order 4 (6 thorough), tensors and operators; to_qtt/qtt_to_tens: all shapes over {1,2,4,8}(16) and mode_size 3 powers; exact mode sizes and value within C*eps incl. complex phase; loose eps by the complete decision walk on [1e-8,0.3).',
          'error budget constants C from DESIGN §5 C10', '§5 C10'),
 })
 EM = 'bounded exhaustive enumeration of operand structures x finite menus (eps, internal RNG seeds, initial guesses, solver options) on the real library, dense reference'
